@@ -84,16 +84,25 @@ func init() {
 			xs := make([]int32, n)
 			// small universe so that repeats happen; universe size varies per history
 			var uni int
-			switch r.intn(4) {
+			switch r.intn(7) {
 			case 0:
 				uni = 70
 			case 1:
 				uni = 300
 			case 2:
 				uni = 5000
+			case 3:
+				uni = 20000
+			case 4:
+				uni = 1 << 16
+			case 5:
+				uni = 1 << 22
 			default:
 				uni = 1 << 21
 			}
+			// half of the histories climb in steps of whole words / blocks of words (growth of the backing store in stages)
+			stair := r.intn(2) == 0
+			step := []int{64, 640, 4096, 8192}[r.intn(4)]
 			for j := range xs {
 				switch r.intn(10) {
 				case 0:
@@ -104,9 +113,35 @@ func init() {
 					if j > 0 {
 						xs[j] = xs[r.intn(j)]
 					}
+				case 3, 4:
+					if stair {
+						v := r.intn(1+uni/step)*step + []int{0, 1, 63, -1}[r.intn(4)]
+						if v < 0 {
+							v = 0
+						}
+						xs[j] = int32(v)
+					} else {
+						xs[j] = int32(r.intn(uni))
+					}
 				default:
 					xs[j] = int32(r.intn(uni))
 				}
+			}
+			// ... and half of them end with a sweep asking for every value inserted so far, in another order: a set forgets nothing
+			if r.intn(2) == 0 {
+				seen := map[int32]bool{}
+				var all []int32
+				for _, x := range xs {
+					if x >= 0 && !seen[x] {
+						seen[x] = true
+						all = append(all, x)
+					}
+				}
+				for k := len(all) - 1; k > 0; k-- {
+					o := r.intn(k + 1)
+					all[k], all[o] = all[o], all[k]
+				}
+				xs = append(xs, all...)
 			}
 			emitBitset(out, xs)
 		}
